@@ -133,6 +133,20 @@ CHECKS = {
          "pyprops/c15.py (CFG). The disassembler-length clause holds by construction for 6502/65816 (run() adds "
          "disasm_6502's return value) and is not checked separately.",
          "DESIGN.md 3/C15"),
+ "C16": ("libfuzzer",
+         "coverage-guided fuzzing (libFuzzer + ASan/UBSan) of the in-process two-pass assembler with a grammar-aware custom mutator; replay tier of committed regression inputs",
+         "Generated-input search by coverage-guided fuzzing: harness/fuzz_asm.cpp assembles option byte + source text "
+         "in-process (file based, with recursive include files present, listing, fuzzed output type) under ASan + "
+         "UBSan(bounds, divide-by-zero, null); 16 independent libFuzzer processes per run (quick 40 s, thorough 600 s "
+         "each), seeds from tests/comparison, samples/ and hand-written macro/conditional/include programs, 1 shard "
+         "in 4 from an empty corpus; custom mutator: line/token deletion and duplication, token blow-up to 120..20000 "
+         "characters, nesting of macros/.if/.scope/parentheses to hundreds of levels, recursive macros/defines/includes, "
+         "extreme numbers and addresses. Crash artifacts are re-run 3x before they are reported, time-outs are re-run "
+         "through the sanitized CLI with a 60 s limit; committed regression inputs (corpus/C16) are replayed first.",
+         "Inputs that request huge output are rejected by the target and counted (rejected_big); inputs matching the "
+         "avoid rules of listed known findings are rejected and counted (rejected_known_finding). Only crash-/leak- "
+         "artifacts and reproduced time-outs are violations; oom/slow-unit are ignored.",
+         "DESIGN.md 3/C16"),
  "C18": ("hypothesis+nvserve",
          "Hypothesis structured programs; generic .lst parser checked against the hex output and an own disassembly of the output image",
          "Generated-input search: structured programs (multi-word instructions, data between code, .org segments, "
@@ -194,8 +208,8 @@ m = {
  "engines": [
    {"name": "hypothesis+nvserve", "path": "pyprops/", "serves_properties": sorted(k for k, v in CHECKS.items() if v[0] == "hypothesis+nvserve"),
     "kind_free_text": "Hypothesis (python3-vt) generators, reference models and decoders in Python; the code under test runs in-process in sanitized nvserve workers or as sanitized CLI binaries"},
-   {"name": "nvx", "path": "harness/", "serves_properties": sorted(k for k, v in CHECKS.items() if v[0] == "nvx"),
-    "kind_free_text": "C++ in-process harness (enumeration + rapidcheck + libFuzzer) linked against the sanitized library build"},
+   {"name": "libfuzzer", "path": "harness/", "serves_properties": sorted(k for k, v in CHECKS.items() if v[0] == "libfuzzer"),
+    "kind_free_text": "libFuzzer targets (harness/fuzz_*.cpp, clang -fsanitize=fuzzer,address + UBSan subset) linked against the sanitized library build, driven and triaged by pyprops/c16.py / c17.py"},
  ],
  "checks": [], "not_applicable": [],
  "notes": "All checks: ./check <ID> --tier quick|thorough ; VERIF_SEED selects the random stream; fixes made to /repo are listed in known_findings.json ('fixed')."
